@@ -176,6 +176,7 @@ def check_class(prog, cd, rep, cname, amap, items, c):
     sn = f.self_name or "self"
     fq = f"{cname}.{f.name}"
     adder_channel_rules(rep, mod, fq, f, amap, sn)
+    rep.attempt(adder_only_adds, prog, rep, cname, c, f, amap, items)
     rep.attempt(bulk_delegation, prog, rep, cname, c, f)
     rep.attempt(pair_view, prog, rep, cname, c, amap, items)
     # 5 container-kind: decoder installs
@@ -279,6 +280,37 @@ def check_class(prog, cd, rep, cname, amap, items, c):
 
 # bulk operations of the channel-mapped classes, confirmed by reading (class -> (method, kind, what it does per item, index of
 # the items parameter, index of the channels parameter | "pairs" (the items ARE (channel, item) pairs) | None))
+SHRINKING = ("del", "pop", "remove", "clear", "store", "setitem", "sort", "reverse", "insert")
+
+
+def adder_only_adds(prog, rep, cname, c, adder, amap, items, rule="paired-mutation"):
+    """'surviving items keep the channel they were given' and 'a refused add changes nothing': the adder's only changes of the two
+    lists are the paired appends at its end.  An adder that deletes, replaces or reorders entries - directly or by calling a method
+    of the class that does (the remover, a clear, a setter) - takes away a pair nobody asked to remove (and does so before its own
+    refusals, so a refused add is no longer a no-op); decoders rebuild blocks through the adder, so stored pairs vanish on read."""
+    mod = c.module.path.name
+    sn = adder.self_name or "self"
+    fq = f"{cname}.{adder.name}"
+    bad = []
+    for kind, pos, st in list_ops(adder.node, amap, sn) + list_ops(adder.node, items, sn):
+        if kind in SHRINKING and not in_handler(adder.node, st):
+            bad.append((st, f"`{norm(head(st))[:60]}` ({kind}) inside the adder"))
+    for call in [x for x in walk_no_nested(adder.node) if isinstance(x, ast.Call) and isinstance(x.func, ast.Attribute) and isinstance(x.func.value, ast.Name) and x.func.value.id == sn]:
+        m = prog.lookup_method(c, call.func.attr)
+        if m is None or m.name == adder.name:
+            continue
+        msn = m.self_name or "self"
+        ops = [o for o in list_ops(m.node, amap, msn) + list_ops(m.node, items, msn) if o[0] in SHRINKING]
+        if ops:
+            bad.append((call, f"`{norm(call)[:60]}` calls {cname}.{m.name}, which changes the lists by `{norm(head(ops[0][2]))[:50]}`"))
+    if bad:
+        for node, why in bad:
+            rep.fail(rule, mod, fq, node, f"{why}: an add takes away or re-arranges pairs that nobody asked to remove (a stored pair is lost when a block with such items is decoded, and a refused add is no longer a no-op)",
+                     construct=f"{fq} shrinks the lists: {norm(head(node))[:50]}")
+    else:
+        rep.ok(rule, f"{fq}: the adder only appends to `{amap}` / `{items}` (no deletion, replacement or reordering, directly or through a method of the class)", nontrivial=True)
+
+
 def pair_view(prog, rep, cname, c, amap, items, rule="pair-view"):
     """A public accessor that hands out (channel, item) pairs takes the channel from the channel list: zip(<map>, <items>) in that
     order - a position (enumerate) or any other sequence in the channel's place makes the bulk read-modify-write idiom
